@@ -33,9 +33,15 @@ RS = RuleSet(
         'non-quoting SoftExpansion character is ever classified by IFS membership; (R3) lexer symbol -> action, '
         'colon -> condition, Vacancy::of, ValueCondition::with and the arms of switch::apply are composed into the '
         '4x2x5 table and compared with the POSIX 2.6.2 table; (R4) the UnsetParameter error is constructed only under '
-        'value.is_none() and options.get(Unset)==Off on the non-Switch branch, before Length/Trim; (R5) every AttrChar '
+        'value.is_none() and options.get(Unset)==Off, is unreachable when every test of self.modifier takes its Switch '
+        'edge, and (conditional constant propagation over the MIR) no length/trim code is reachable once the value is unset '
+        'and the option off; (R5) every AttrChar '
         'built in production code carries the attributes prescribed for its module and the only later writers of '
-        'is_quoted/origin are the reviewed ones; (R6) expansion < splitting < globbing in expand_word_multiple and no '
+        'is_quoted/is_quoting/origin are the reviewed ones; (R5b) single_quote, dollar_single_quote, to_field and the Literal / '
+        'Backslashed arms of TextUnit::expand are evaluated on sample strings and must mark exactly the enclosed characters as '
+        'quoted and the marks as quoting, every other unit delegates to its reviewed expander, and the DoubleQuote arm expands '
+        'in a non-splitting context, restores the context on success and on error, and passes the phrase through double_quote; '
+        '(R6) expansion < splitting < globbing in expand_word_multiple and no '
         'splitting/globbing in the single-field entry points, with quote removal last; (R7) the read built-in obtains '
         'its fields from Ifs::ranges and no other code constructs a split::Class.'),
     not_decided='Phrase::append / ifs_join algebra for $@ and $*; the values computed by trim and length; that the '
@@ -1900,9 +1906,9 @@ def r7(cx):
     nexts = [(lb, t) for lb in F.logical(READ_ASSIGN) for b, t in Q.find_calls(lb, [RANGES_NEXT])]
     in_closure = [1 for lb, t in nexts if lb.fn != READ_ASSIGN]
     cx.site('%s: Ranges::next x%d (%d in closures)' % (READ_ASSIGN, len(nexts), len(in_closure)))
-    if not in_closure or len(nexts) - len(in_closure) < 2:
-        cx.violation(READ_ASSIGN, 'field-source', 'every variable must receive the next field of the shared splitter, and the last one '
-                     'must look one field ahead to decide whether a remainder exists', loc=body.loc(body.d))
+    if not in_closure or len(nexts) - len(in_closure) < 1:
+        cx.violation(READ_ASSIGN, 'field-source', 'every variable (the last one included) must receive the next field of the shared '
+                     'splitter', loc=body.loc(body.d))
     # the remainder for the last variable: from the start of its field to one past the last character that is
     # not IFS white space
     rpos = Q.find_calls(body, [re.compile(r'Iterator>::rposition$'), '*::Iterator::rposition'])
@@ -2109,3 +2115,6 @@ def r5b(cx):
             if outcome == 'err' and freeze(r) != V(ERR, ('O', 'error')):
                 cx.violation(WORDUNIT_EXPAND, 'dq-error:' + cell, 'an expansion error inside double quotes is not propagated',
                              loc=_hloc(F, WORDUNIT_EXPAND, arm))
+
+
+RS.rules.sort(key=lambda r: r.id)
